@@ -622,7 +622,7 @@ def jobs(aspect, tier, langs, units=('class_members', 'func_decl')):
     for lang in langs:
         for unit in units:
             if unit == 'class_members':
-                prm = dict(sym_draws=8 if tier == 'quick' else 10, max_fields=1 if tier == 'quick' else 2, max_funcs=2)
+                prm = dict(sym_draws=8 if tier == 'quick' else 12, max_fields=1 if tier == 'quick' else 2, max_funcs=2)
                 bounds = ('offered superclass (none, Aa, Pa, Pb, Pg<..>, Ii), own type parameter, Pb implementing am, Pg with a '
                           'parameterized abstract method, overridability of Aa.fa, finality of Aa.ma symbolic; every RNG outcome '
                           'of the first %d draws (class kind, finality, type arguments, member counts, samples), later draws '
@@ -631,7 +631,7 @@ def jobs(aspect, tier, langs, units=('class_members', 'func_decl')):
                 events = ['unit:class_members', 'kind:regular', 'kind:abstract', 'kind:interface', 'super:Pb', 'super:Pg',
                           'overriding-method', 'overriding-parameterized-method', 'overriding-field', 'fresh-method']
             else:
-                prm = dict(sym_draws=4 if tier == 'quick' else 6)
+                prm = dict(sym_draws=4 if tier == 'quick' else 7)
                 bounds = ('place (top level, nested in a function, method of an open / final class), offered type parameters '
                           '([], [F_T], [F_T, F_B : Aa], [F_T, F_U : F_T]), expected return type given or not, '
                           'parameterized-functions switch symbolic; every RNG outcome of the first %d draws; at most 2 '
